@@ -1,6 +1,7 @@
 package values
 
 import (
+	"fmt"
 	"reflect"
 	"sort"
 )
@@ -25,6 +26,70 @@ func (s genericSortable) Swap(i, j int) {
 // Less is part of sort.Interface.
 func (s genericSortable) Less(i, j int) bool {
 	return Less(s[i], s[j])
+}
+
+// SortedMapKeys returns the keys of a map in a deterministic order: numbers by value,
+// strings lexically, false before true, and keys of different kinds (or of other kinds)
+// by kind and then by their printed form. Go's own map iteration order is random.
+func SortedMapKeys(m reflect.Value) []reflect.Value {
+	keys := m.MapKeys()
+	sort.SliceStable(keys, func(i, j int) bool { return keyLess(keys[i], keys[j]) })
+	return keys
+}
+
+func keyLess(a, b reflect.Value) bool {
+	for a.Kind() == reflect.Interface && !a.IsNil() {
+		a = a.Elem()
+	}
+	for b.Kind() == reflect.Interface && !b.IsNil() {
+		b = b.Elem()
+	}
+	ca, cb := keyClass(a), keyClass(b)
+	if ca != cb {
+		return ca < cb
+	}
+	switch ca {
+	case 1:
+		return !a.Bool() && b.Bool()
+	case 2:
+		if a.CanInt() && b.CanInt() {
+			return a.Int() < b.Int()
+		}
+		if a.CanUint() && b.CanUint() {
+			return a.Uint() < b.Uint()
+		}
+		return keyFloat(a) < keyFloat(b)
+	case 3:
+		return a.String() < b.String()
+	default:
+		return fmt.Sprint(a) < fmt.Sprint(b)
+	}
+}
+
+func keyClass(v reflect.Value) int {
+	switch v.Kind() {
+	case reflect.Bool:
+		return 1
+	case reflect.Int, reflect.Int8, reflect.Int16, reflect.Int32, reflect.Int64,
+		reflect.Uint, reflect.Uint8, reflect.Uint16, reflect.Uint32, reflect.Uint64, reflect.Uintptr,
+		reflect.Float32, reflect.Float64:
+		return 2
+	case reflect.String:
+		return 3
+	default:
+		return 4
+	}
+}
+
+func keyFloat(v reflect.Value) float64 {
+	switch v.Kind() {
+	case reflect.Float32, reflect.Float64:
+		return v.Float()
+	case reflect.Uint, reflect.Uint8, reflect.Uint16, reflect.Uint32, reflect.Uint64, reflect.Uintptr:
+		return float64(v.Uint())
+	default:
+		return float64(v.Int())
+	}
 }
 
 // SortByProperty sorts maps on their key indices.
